@@ -5,16 +5,67 @@
 // gives the verification harness narrow access to unexported state.
 package zerolog
 
-import "sync/atomic"
+import (
+	"reflect"
+	"sync/atomic"
+	"unsafe"
+)
 
 // ---- samplers (C13) ----
+//
+// The private state of the samplers is located by SHAPE (the first unexported
+// uint32 field = the call counter, the first unexported int64 field = the
+// window mark), not by name: a change that renames or re-interprets such a
+// field must not stop the harness from building, because then the monitors
+// could not look for a failing input at all (seeded change C13-5).  When a
+// field of the expected shape does not exist the setters report false and the
+// driver generates fresh (zero-state) samplers only.
 
-func VerifSetBasicCounter(s *BasicSampler, c uint32) { atomic.StoreUint32(&s.counter, c) }
-func VerifBasicCounter(s *BasicSampler) uint32       { return atomic.LoadUint32(&s.counter) }
-func VerifSetBurstState(s *BurstSampler, c uint32, resetAt int64) {
-	atomic.StoreUint32(&s.counter, c)
-	atomic.StoreInt64(&s.resetAt, resetAt)
+func verifPrivField(p interface{}, k reflect.Kind) unsafe.Pointer {
+	v := reflect.ValueOf(p).Elem()
+	t := v.Type()
+	for i := 0; i < t.NumField(); i++ {
+		f := t.Field(i)
+		if f.PkgPath != "" && f.Type.Kind() == k {
+			return unsafe.Pointer(v.Field(i).UnsafeAddr())
+		}
+	}
+	return nil
+}
+
+func VerifSetBasicCounter(s *BasicSampler, c uint32) bool {
+	p := verifPrivField(s, reflect.Uint32)
+	if p == nil {
+		return false
+	}
+	atomic.StoreUint32((*uint32)(p), c)
+	return true
+}
+func VerifBasicCounter(s *BasicSampler) uint32 {
+	p := verifPrivField(s, reflect.Uint32)
+	if p == nil {
+		return 0
+	}
+	return atomic.LoadUint32((*uint32)(p))
+}
+
+// VerifSetBurstState presets the counter and the window mark (on the pinned
+// tree: resetAt, the end of the current window in UnixNano).
+func VerifSetBurstState(s *BurstSampler, c uint32, resetAt int64) bool {
+	pc := verifPrivField(s, reflect.Uint32)
+	pr := verifPrivField(s, reflect.Int64)
+	if pc == nil || pr == nil {
+		return false
+	}
+	atomic.StoreUint32((*uint32)(pc), c)
+	atomic.StoreInt64((*int64)(pr), resetAt)
+	return true
 }
 func VerifBurstState(s *BurstSampler) (uint32, int64) {
-	return atomic.LoadUint32(&s.counter), atomic.LoadInt64(&s.resetAt)
+	pc := verifPrivField(s, reflect.Uint32)
+	pr := verifPrivField(s, reflect.Int64)
+	if pc == nil || pr == nil {
+		return 0, 0
+	}
+	return atomic.LoadUint32((*uint32)(pc)), atomic.LoadInt64((*int64)(pr))
 }
